@@ -93,7 +93,11 @@ class CachedStore(Entity):
 
         # Cache storage
         self._cache: dict[str, Any] = {}
-        self._dirty_keys: set[str] = set()  # For write-back
+        # For write-back. Insertion-ordered (a dict used as an ordered set):
+        # flush / invalidate_all write dirty keys back in the order they
+        # became dirty, not in the iteration order of a set of strings,
+        # which changes with the interpreter's hash seed.
+        self._dirty_keys: dict[str, None] = {}
 
         # Consistency bookkeeping for operations that overlap in simulated time
         self._key_epoch: dict[str, int] = {}  # bumped when a put/delete of the key starts
@@ -213,7 +217,7 @@ class CachedStore(Entity):
                 self._inflight_writes[key] -= 1
         else:
             # Mark as dirty for later writeback
-            self._dirty_keys.add(key)
+            self._dirty_keys[key] = None
             yield self._cache_read_latency  # Just cache write latency
 
     def delete(self, key: str) -> Generator[float, None, bool]:
@@ -293,7 +297,7 @@ class CachedStore(Entity):
                     break
                 self._write_back_if_dirty(evict_key)
                 self._cache.pop(evict_key, None)
-                self._dirty_keys.discard(evict_key)
+                self._dirty_keys.pop(evict_key, None)
                 self._evictions += 1
 
             self._eviction_policy.on_insert(key)
@@ -311,7 +315,7 @@ class CachedStore(Entity):
         """
         if key in self._dirty_keys and key in self._cache:
             self._backing_store.put_sync(key, self._cache[key])
-            self._dirty_keys.discard(key)
+            self._dirty_keys.pop(key, None)
             self._writebacks += 1
 
     def _fill_allowed(self, key: str, epoch: int) -> bool:
@@ -326,7 +330,7 @@ class CachedStore(Entity):
     def _cache_remove(self, key: str) -> None:
         """Remove an entry from cache."""
         self._cache.pop(key, None)
-        self._dirty_keys.discard(key)
+        self._dirty_keys.pop(key, None)
         self._eviction_policy.on_remove(key)
 
     def contains_cached(self, key: str) -> bool:
